@@ -75,6 +75,11 @@ MATRIX = [
     dict(entry="cli_write", mode="changes", initial="crlf", base_hash="current"),
     dict(entry="tool", mode="content", initial="canonical", base_hash="none", new_style="longline"),
     dict(entry="tool", mode="content", initial="canonical", base_hash="none", new_style="nonl"),
+    dict(entry="tool", mode="content", initial="canonical", base_hash="current", new_style="oddchars"),
+    dict(entry="atomic", mode="content", initial="absent", base_hash="none", new_style="oddchars"),
+    dict(entry="cli_write", mode="content", initial="canonical", base_hash="none", stdin=True, new_style="oddchars"),
+    dict(entry="tool", mode="changes", initial="oddchars", base_hash="current"),
+    dict(entry="cli_normalize", mode="content", initial="oddchars", base_hash="none", inplace=True),
     dict(entry="cli_hydrate", mode="content", initial="absent", base_hash="none"),
     dict(entry="cli_hydrate", mode="content", initial="canonical", base_hash="none", fmode=0o600),
     # unusual targets and debris
@@ -162,7 +167,7 @@ def gen_scenario(t: Tape, idx: int, tier: str) -> dict:
                 sc["args"] = a
             if not a.get("lenient"):
                 sc["new_style"] = t.weighted([("canonical", 5), ("frontmatter", 1), ("corpus", 2), ("big", 1), ("huge", 1), ("unicode", 2),
-                                              ("longline", 1), ("nonl", 1), ("trail", 1)], "sc.ns3")
+                                              ("longline", 1), ("nonl", 1), ("trail", 1), ("oddchars", 1)], "sc.ns3")
         if entry == "tool" and sc["mode"] != "content" and t.flag(60, "sc.dry2"):
             sc["args"] = {"corrections_only": True}
         if t.flag(80, "sc.odd"):
@@ -232,6 +237,8 @@ def _initial_bytes(t: Tape, kind: str, marker: str, big: int) -> bytes | None:
         return docs.gen_doc(t, marker, "canonical", size=big).encode()
     if kind in ("huge", "over64k"):
         return docs.gen_doc(t, marker, "canonical", size=1500 if kind == "huge" else 700).encode()
+    if kind == "oddchars":
+        return docs.gen_doc(t, marker, "oddchars").encode()
     if kind == "unparseable":
         return t.pick(docs.UNPARSEABLE, "unp").encode()
     if kind == "empty":
@@ -315,6 +322,11 @@ def layout(sc: dict):
             # LONGER than anything the next writer produces: a staging file that is reused without truncation keeps a tail
             spec.append(("f", "sb/" + sub + nm, b"half written by a writer that died\n" + b"".join(
                 b"OLD%04d::\"orphaned tail of a much longer document\"\n" % i for i in range(400)), 0o600))
+        # files of the USER whose names merely look like staging, backup, lock or editor files of the target: a clean-up that
+        # works by pattern (or a "helpful" sweep of stale temporaries) must not touch them (A4)
+        for nm in ("t.oct.md.tmp", "t.oct.md.bak", "t.oct.md~", ".t.oct.md.swp", ".t.oct.md.lock", "t.oct.md.orig", "tmp.tmp",
+                   ".octave-write.lock", "t.oct.md.new"):
+            spec.append(("f", "sb/" + sub + nm, b"mine, not yours: " + nm.encode() + b"\n", 0o640))
     if sc.get("siblings"):
         spec.append(("f", "sb/sibling.oct.md", b"===SIB===\nS::1\n===END===\n", 0o644))
         spec.append(("f", "sb/notes.txt", b"do not touch\n", 0o600))
